@@ -339,6 +339,23 @@ def random_inputs(R, d, n):
                 bb.insert(pos, R.choice([0x80, 0xff, 0xc3, 0x00, 0xe4]))
             b = bytes(bb)
         out.append(b)
+    # half-matched characters: a character sharing its leading byte(s) with one the definition knows but differing in
+    # the last byte, directly followed by non-ASCII text the definition matches (an attempt that dies in the middle of
+    # a character, then a multi-byte token) -- in str mode the error is rounded up to the next char boundary only
+    na = [c for c in d.alphabet() if ord(c) >= 0x80]
+    for c in na[:6]:
+        e = c.encode('utf-8')
+        for delta in (1, -1, 2):
+            last = e[-1] + delta
+            if 0x80 <= last <= 0xbf:
+                try:
+                    sib = (e[:-1] + bytes([last])).decode('utf-8')
+                except UnicodeDecodeError:
+                    continue
+                for tail in (c * 3, c + 'é' + c, 'a' + c, c):
+                    out.append((sib + tail).encode('utf-8'))
+                    out.append(('a' + sib + tail).encode('utf-8'))
+                break
     return out
 
 
